@@ -37,8 +37,8 @@ def names_stream(ctx, res):
                         sub = cc.Schema(env=st)
                         cur._add_field(k, sub)          # top-down: the nested schema gets its key first
                         cur = sub
-                    fld = cc.StringField(env=fset)
-                    cur._add_field("host_name", fld)
+                    fld = cc.StringField(env=fset, name="Friendly Host Name") if (depth + len(str(fset))) % 2 else cc.StringField(env=fset)
+                    cur._add_field("host_name", fld)       # (a display name never takes part in the variable's name)
                     got = fld.env if isinstance(fld.env, str) and fld.env else None
                     want = expected_name(root, list(chain), fset)      # direct statement of the naming rule (independent of the model)
                     case = {"stream": "names", "root": root, "chain": list(chain), "field": fset}
@@ -52,7 +52,7 @@ def names_stream(ctx, res):
                         if route != "dotted-existing" and any(st is not None for st in chain):
                             continue
                         s2 = cc.Schema(env=root)
-                        fld2 = cc.StringField(env=fset)
+                        fld2 = cc.StringField(env=fset, name="Other Name") if route == "attribute" else cc.StringField(env=fset)
                         dotted = ".".join(list(KEYS[:depth]) + ["host_name"])
                         if route == "dotted-create":
                             s2[dotted] = fld2
